@@ -24,7 +24,7 @@ import logging
 
 logging.disable(logging.CRITICAL)
 
-from openpectus.lang.exec.regex import RegexCategorical, RegexNumber      # noqa: E402
+from openpectus.lang.exec.regex import RegexCategorical, RegexNumber, RegexNumberOptional      # noqa: E402
 from openpectus.lang.exec.uod import RegexNamedArgumentParser             # noqa: E402
 
 from mc.core import HarnessError                                         # noqa: E402
@@ -252,6 +252,9 @@ def build_parser(spec) -> RegexNamedArgumentParser:
     if spec[0] == "num":
         _, units, nn, io = spec
         rx = RegexNumber(units=list(units) if units is not None else None, non_negative=nn, int_only=io)
+    elif spec[0] == "numopt":
+        _, units, nn, io = spec
+        rx = RegexNumberOptional(units=list(units) if units is not None else None, non_negative=nn, int_only=io)
     else:
         _, excl, add = spec
         rx = RegexCategorical(exclusive_options=list(excl) if excl else None, additive_options=list(add) if add else None)
@@ -261,12 +264,14 @@ def build_parser(spec) -> RegexNamedArgumentParser:
 
 
 def spec_items(spec):
-    if spec[0] == "num":
+    if spec[0] in ("num", "numopt"):
         return list(spec[1] or [])
     return list(spec[1]) + list(spec[2])
 
 
 def spec_str(spec) -> str:
+    if spec[0] == "numopt":
+        return f"RegexNumberOptional(units={list(spec[1]) if spec[1] is not None else None}, non_negative={spec[2]}, int_only={spec[3]})"
     if spec[0] == "num":
         return f"RegexNumber(units={list(spec[1]) if spec[1] is not None else None}, non_negative={spec[2]}, int_only={spec[3]})"
     return (f"RegexCategorical(exclusive_options={list(spec[1]) if spec[1] else None}, "
@@ -286,7 +291,14 @@ def check_pair(spec, parser, s: str):
     out = []
     if valid != (gd is not None):
         out.append(("C22:parse-validate-disagree", f"{spec_str(spec)}: validate({s!r})={valid} but parse -> {gd}"))
-    if spec[0] == "num":
+    if spec[0] == "numopt" and s.strip(" ") == "":
+        # the optional number: the empty argument is in the language and carries no number
+        if gd is None:
+            out.append(("C22:optional-number-rejects:empty", f"{spec_str(spec)} rejects the empty argument {s!r}"))
+        elif gd.get("number") not in (None, ""):
+            out.append(("C22:optional-number-groups:empty", f"{spec_str(spec)} on {s!r} delivers {gd}"))
+        return ACCEPT, gd is not None, out
+    if spec[0] in ("num", "numopt"):
         _, units, nn, io = spec
         verdict, groups = num_oracle(s, units, nn, io)
         if verdict == REJECT and gd is not None:
@@ -319,7 +331,7 @@ def check_pair(spec, parser, s: str):
 
 
 def check_introspection(spec, parser, trace: bool = False):
-    if spec[0] == "num":
+    if spec[0] in ("num", "numopt"):
         want = {"units": list(spec[1] or []), "exclusive": [], "additive": []}
     else:
         want = {"units": [], "exclusive": list(spec[1]), "additive": list(spec[2])}
@@ -363,10 +375,12 @@ def all_specs(k_max: int):
         for nn in (False, True):
             for io in (False, True):
                 specs.append(("num", units, nn, io))
+                if units is None or len(units) <= 1:
+                    specs.append(("numopt", units, nn, io))
     for lst in lists:
         for cut in range(len(lst) + 1):
             specs.append(("cat", lst[:cut], lst[cut:]))
-    specs.sort(key=lambda sp: (len(spec_items(sp)), 0 if sp[0] == "num" else 1))     # simplest first (stable)
+    specs.sort(key=lambda sp: (len(spec_items(sp)), 0 if sp[0] == "num" else 1 if sp[0] == "numopt" else 2))     # simplest first (stable)
     return specs
 
 
@@ -397,7 +411,7 @@ def work(item):
 
 def payload(spec, s):
     d = {"kind": spec[0], "string": s}
-    if spec[0] == "num":
+    if spec[0] in ("num", "numopt"):
         d.update(units=list(spec[1]) if spec[1] is not None else None, non_negative=spec[2], int_only=spec[3])
     else:
         d.update(exclusive=list(spec[1]), additive=list(spec[2]))
@@ -405,8 +419,8 @@ def payload(spec, s):
 
 
 def spec_from_payload(d):
-    if d["kind"] == "num":
-        return ("num", tuple(d["units"]) if d["units"] is not None else None, d["non_negative"], d["int_only"])
+    if d["kind"] in ("num", "numopt"):
+        return (d["kind"], tuple(d["units"]) if d["units"] is not None else None, d["non_negative"], d["int_only"])
     return ("cat", tuple(d["exclusive"]), tuple(d["additive"]))
 
 
@@ -423,7 +437,7 @@ def run(ctx):
                                        (("cat", (), ("A",)), 3)])
     results = ctx.pmap(work, items)
     tot = {"pairs": 0, ACCEPT: 0, UNSPEC: 0, REJECT: 0, "unspec_accepted": 0, "impl_accepts": 0, "near_miss": 0}
-    per_kind = {"num": dict(tot), "cat": dict(tot)}
+    per_kind = {"num": dict(tot), "numopt": dict(tot), "cat": dict(tot)}
     allv = []
     for idx, ((spec, _), (st, viols)) in enumerate(zip(items, results)):
         for k in tot:
